@@ -368,6 +368,7 @@ func (t *zzFailTransport) RoundTrip(*http.Request) (*http.Response, error) { ret
 // second one, and that attempt again carries the original method, path (base + path, once),
 // query, headers (rules applied once) and the complete body.
 func VerifH04cRetry() {
+	verifrt.Budget(2000000) // a retry loop that never ends is cut here (paths need < 50 k instructions)
 	base := []string{"", "/b", "/b/"}[verifrt.Choose("base", 3)]
 	targetQuery := []string{"", "?tq=1"}[verifrt.Choose("targetquery", 2)]
 	up := http.Header{}
